@@ -65,12 +65,19 @@ func (u *UpServer) startQUIC() error {
 			u.mu.Lock()
 			u.connSeq++
 			cid := u.connSeq
+			if u.qconns == nil {
+				u.qconns = map[int]quic.Connection{}
+			}
+			u.qconns[cid] = c
 			u.mu.Unlock()
 			go func() {
 				qc := qctx{sni: c.ConnectionState().TLS.ServerName}
 				for {
 					st, err := c.AcceptStream(context.Background())
 					if err != nil {
+						u.mu.Lock()
+						delete(u.qconns, cid)
+						u.mu.Unlock()
 						return
 					}
 					go func() {
